@@ -44,6 +44,23 @@ def oob_histories():
     return hs
 
 
+def post_cycle_world():
+    """a cycle that closes through a checksummed target which has ALREADY run redo-stamp (unchanged content, so it counts
+    as "checked in this run") when it asks for the dependency that leads back to it"""
+    return World("cyc-post", {"s": ["0", "1"]},
+                 {"all.do": [S(deps=["cfg"])], "cfg.do": [S(kind="csum", deps=["s"], out="file", post=["obj"])],
+                  "obj.do": [S(deps=["s"]), S(deps=["cfg"], tag="cyclic")]},
+                 ["all", "cfg", "obj"], ["all", "cfg"])
+
+
+def post_histories():
+    hs = []
+    for entry in ("all", "cfg", "obj"):
+        for cmd in ("ifchange", "redo"):
+            hs.append([["ifchange", ["all"]], ["dovar", "obj.do", 1], [cmd, [entry], {}]])
+    return hs
+
+
 def ids_cycle_world():
     """a cycle entered through a long acyclic prefix of *younger* targets, after enough unrelated targets were built
     that database ids have two digits (a cycle member with a small id below ancestors with larger ids)"""
@@ -90,6 +107,8 @@ def step_check(proj, i, obs):
     if proj.w.name == "cyc-oob" and m.variant.get("d.do") == 0:
         return oracles.check_exit(proj, obs)    # the graph is still acyclic here
     if proj.w.name == "cyc-ids" and m.variant.get("gen.do") == 0:
+        return oracles.check_exit(proj, obs)
+    if proj.w.name == "cyc-post" and m.variant.get("obj.do") == 0:
         return oracles.check_exit(proj, obs)
     out.append(e1prop.stat("commands-entering-a-cycle"))
     if obs["rc"] == -999:
@@ -168,6 +187,7 @@ def main(tier):
     plan = [(w, histories(w), 0) for w in W.values()]
     plan.append((oob_cycle_world(), oob_histories(), 0))
     plan.append((ids_cycle_world()[0], ids_histories(), 0))
+    plan.append((post_cycle_world(), post_histories(), 0))
     rc1 = e1prop.run_property(
         PID, tier, plan, "rv.props.c12", explore_opts={"all_steps": True},
         rule="generated cyclic worlds: cycle length L in 1..4 (quick 1..3), acyclic prefix of length 0..2 (quick 0..1), with/without an "
@@ -197,6 +217,7 @@ def replay(path):
     W = all_worlds()
     W["cyc-oob"] = oob_cycle_world()
     W["cyc-ids"] = ids_cycle_world()[0]
+    W["cyc-post"] = post_cycle_world()
     bindir = common.build_subject()
     key, viols, summ = replay_history(W[doc["world"]], doc["history"], step_check, bindir=bindir)
     common.cleanup_scratch()
